@@ -6,7 +6,7 @@ ends in this process, two disjoint temp directories play "local" and "remote"), 
     byte for byte, under the same relative names; everything else at the destination and the whole source untouched),
   * with the extracted Coq model model/Files.v (correspondence: resulting trees on both sides, raised exception class,
     and -- for single files -- the exact sequence of read results and write sizes seen by the file objects)."""
-import builtins, hashlib, importlib.util, os, random, re, shutil, signal, subprocess, sys, tempfile, threading
+import builtins, hashlib, importlib.util, os, random, re, shutil, signal, subprocess, sys, tempfile, threading, traceback
 from harness import common as C
 
 META = {
@@ -25,7 +25,9 @@ META = {
                   "listdir names are unique, makedirs/isdir/isfile) is modelled structurally and validated differentially; remote file objects are reached "
                   "through proxies (C02); permissions, symlinks to existing targets, concurrent modification and chunk_size <= 0 are outside; so is upload_package's "
                   "remotepath=None branch (it writes into the peer's site-packages; its text is only snapshotted). Both rigs share one machine and one OS: os.path.join "
-                  "running on the right side is observed (thread rig) but a separator difference between two operating systems is not exercised.",
+                  "running on the right side is observed (thread rig) but a separator difference between two operating systems is not exercised. "
+                  "Non-termination is judged without a clock where possible (an instrumented file that sees more than 64 consecutive empty reads/writes ends the loop and "
+                  "reports it); the only wall-clock bound is a 180 s backstop per call that returns early and reports a hang only when the stack at expiry is inside classic.py.",
     "technique": "Coq proof (interpreted chunk loop, nested induction over trees); regenerated skeletons tied by reflexivity; differential correspondence of the extracted model "
                  "against real upload/download over a live classic connection",
     "gen": ["consts", "classic"],
@@ -45,8 +47,9 @@ from rpyc.utils import classic
 CHUNKS = [1, 2, 3, 7, 64, 4096, 64000]
 NAMES = ["a", "b", "c", "d", "f.txt", "x.pyc", "y.pyc", ".hidden", "d d", " sp", "ünï", "data.bin", "__pycache__", "A", "a.b.c",
          "z" * 100, "-", "~", "a.pyc.txt", "pyc", "中"]
-CASE_TIMEOUT = 15
-MAX_HANGS = 3
+CASE_TIMEOUT = 180      # wall-clock backstop for one whole upload/download (returns early; never reached by a working tree)
+MAX_HANGS = 2           # after that many backstop expiries the rest of the run is skipped (each is already reported)
+LIVELOCK_N = 64         # a copy loop that performs this many consecutive empty reads/writes on one file will never end
 
 
 # ------------------------------------------------------------------ case description (JSON-able)
@@ -420,6 +423,8 @@ def gen_case(r, i):
     if r.random() < 0.02:
         case["chunk"] = 0                                       # outside the property; correspondence only
     case["rig"] = "process" if i % 5 == 2 else "thread"
+    if i % 6 == 1:
+        case["again"] = True                                    # transfer the same source twice within the run
     return case
 
 
@@ -439,11 +444,26 @@ def gen_file_case(r, i):
 
 # ------------------------------------------------------------------ running the implementation
 class Hang(BaseException):
-    pass
+    """the backstop expired; carries the main thread's stack at that moment"""
+
+    def __init__(self, stack=()):
+        self.stack = stack
 
 
-def _alarm(*a):
-    raise Hang()
+class Livelock(RuntimeError):
+    """raised by an instrumented file object: the loop using it keeps reading/writing nothing (a logical criterion, no clock)"""
+
+
+def _alarm(signum=None, frame=None):
+    raise Hang(traceback.extract_stack(frame) if frame is not None else ())
+
+
+def confirmed_in_classic(stack):
+    """the frames of rpyc/utils/classic.py the main thread was in when the backstop expired (innermost last)"""
+    if isinstance(stack, str):      # the Hang was caught by rpyc while a request was being served and came back by value
+        return ["classic.py:%s %s" % (ln, fn) for ln, fn in re.findall(r"rpyc/utils/classic\.py, line (\d+) in (\w+)", stack)]
+    return ["%s:%d %s" % (os.path.basename(f.filename), f.lineno, f.name) for f in stack
+            if f.filename.replace(os.sep, "/").endswith("rpyc/utils/classic.py")]
 
 
 class Rig:
@@ -500,16 +520,21 @@ class Rig:
         try:
             fn()
             return ("ok", None)
-        except Hang:
+        except Hang as h:
             signal.setitimer(signal.ITIMER_REAL, 0)
             self.hangs += 1
             Rig.total_hangs += 1
             self.leave()
             self.connect()
-            return ("hang", None)
+            where = confirmed_in_classic(h.stack)
+            if where:           # confirmed: after CASE_TIMEOUT s the main thread is still inside upload*/download*
+                return ("hang", "no return after %d s; stack: %s" % (CASE_TIMEOUT, " > ".join(where[-4:])))
+            return ("harness-timeout", "no return after %d s outside classic.py: %s" % (CASE_TIMEOUT, str(h.stack)[-400:]))
         except OSError as e:
             return ("exc", "OSError")
         except Exception as e:
+            if "Livelock" in type(e).__name__:      # raised locally, or at the peer and re-raised here by rpyc
+                return ("hang", "livelock: more than %d consecutive empty reads/writes on one file" % LIVELOCK_N)
             return ("exc", C.exc_enum(e))
         finally:
             signal.setitimer(signal.ITIMER_REAL, 0)
@@ -591,14 +616,22 @@ class ProcRig(Rig):
 class RecFile:
     def __init__(self, f, tag, log):
         self.f, self.tag, self.log = f, tag, log
+        self.empties = 0
+
+    def _progress(self, n):
+        self.empties = 0 if n else self.empties + 1
+        if self.empties > LIVELOCK_N:
+            raise Livelock("%d consecutive empty reads/writes" % self.empties)
 
     def read(self, n=-1):
         b = self.f.read(n)
         self.log.append(("r", self.tag, n, len(b)))
+        self._progress(len(b))
         return b
 
     def write(self, b):
         self.log.append(("w", self.tag, len(b)))
+        self._progress(len(b))
         return self.f.write(b)
 
     def close(self):
@@ -615,8 +648,9 @@ MAIN_THREAD = threading.main_thread()
 
 
 class Tracer:
-    """while active (thread rig only): every open/listdir/makedirs/isdir/isfile/join on a path of the case is recorded
-    with the thread it ran on (main = local side, anything else = the peer) and files are wrapped to log read/write calls"""
+    """while active: every open/listdir/makedirs/isdir/isfile/join made IN THIS PROCESS on a path of the case is recorded
+    with the thread it ran on (main = local side, anything else = the peer of the thread rig) and files are wrapped to log
+    read/write calls and to notice a loop that no longer makes progress.  In the process rig only the local side is seen."""
 
     def __init__(self, sp, dp):
         self.sp, self.dp = sp, dp
@@ -670,22 +704,27 @@ class Tracer:
         self.saved = []
 
 
+_TYPED = {}
+
+
+def _typed(module):
+    """typed items of the tree under test, computed in-process by the translator (coq/gen may meanwhile belong to another tree)"""
+    if module not in _TYPED:
+        from tools import pygen
+        _TYPED[module] = pygen.typed_items(C.REPO, module)
+    return _TYPED[module]
+
+
 def gen_guard():
-    """which filter guard the current tree has (follows the generated skeleton; falls back to the truthiness test)"""
-    try:
-        txt = open(C.COQ + "/gen/Gen_classic.v").read()
-        return 1 if txt.count("dk_guard := GIsNone") == 2 else 0
-    except OSError:
-        return 0
+    """which filter guard the tree under test has (1 = `filter is None`, 0 = truthiness test / unrecognised)"""
+    t = _typed("classic")
+    return 1 if all("dk_guard := GIsNone" in t.get(k, "") for k in ("upload_skel", "download_skel")) else 0
 
 
 def default_chunk():
-    """the chunk size used when chunk_size is omitted, as regenerated from rpyc/core/consts.py"""
-    try:
-        m = re.search(r"Definition STREAM_CHUNK : Z := \((\d+)\)%Z", open(C.COQ + "/gen/Gen_consts.v").read())
-        return int(m.group(1))
-    except (OSError, AttributeError):
-        return 64000
+    """the chunk size used when chunk_size is omitted, as the translator reads it from rpyc/core/consts.py"""
+    m = re.search(r"\((\d+)\)%Z", _typed("consts").get("STREAM_CHUNK", ""))
+    return int(m.group(1)) if m else 64000
 
 
 DEFAULT_CHUNK = default_chunk()
@@ -722,17 +761,23 @@ def run_tree_impl(rig, case):
     else:
         fn = classic.upload if up else classic.download
         call = lambda: fn(rig.conn, spa, dpa, filter=py_filter(case["filter"]), ignore_invalid=case["ign"], **kw)
-    tr = None
-    if rig.kind == "thread":
-        tr = Tracer(sp, dp)
-        with tr:
-            out = rig.guarded(call)
-    else:
+    tr = Tracer(spa, dpa)
+    with tr:
         out = rig.guarded(call)
     src1, dst1 = snap(sp), snap(dp)
+    again = None
+    if case.get("again") and out[0] == "ok":
+        # the same source once more, into a second path where nothing exists (same process, same connection)
+        dp2, dpa2 = os.path.join(dabs, "dst2"), os.path.join(darg, "dst2")
+        if case["kind"] == "package":
+            call2 = lambda: classic.upload_package(rig.conn, mod, dpa2, **kw)
+        else:
+            call2 = lambda: fn(rig.conn, spa, dpa2, filter=py_filter(case["filter"]), ignore_invalid=case["ign"], **kw)
+        out2 = rig.guarded(call2)
+        again = (out2, snap(sp), snap(dp2))
     for d in w["rm"]:
         shutil.rmtree(d, ignore_errors=True)
-    return src0, dst0, out, src1, dst1, tr
+    return src0, dst0, out, src1, dst1, tr, again
 
 
 def run_file_impl(rig, case):
@@ -748,12 +793,8 @@ def run_file_impl(rig, case):
     fn = classic.upload_file if up else classic.download_file
     kw = {} if case["chunk"] is None else {"chunk_size": case["chunk"]}
     call = lambda: fn(rig.conn, spa, dpa, **kw)
-    tr = None
-    if rig.kind == "thread":
-        tr = Tracer(sp, dp)
-        with tr:
-            out = rig.guarded(call)
-    else:
+    tr = Tracer(spa, dpa)
+    with tr:
         out = rig.guarded(call)
     src1, dst1 = snap(sp), snap(dp)
     for d in w["rm"]:
@@ -793,6 +834,7 @@ def check_files(ctx, model, rigs, cases, table=None):
     for i, case in enumerate(cases):
         data = file_bytes(case["src"])
         chunk = eff_chunk(case)
+        up = case["dir"] == "upload"
         rig = rigs[case.get("rig", "thread")]
         out, src1, dst1, tr = run_file_impl(rig, case)
         if out[0] == "skipped":
@@ -809,6 +851,9 @@ def check_files(ctx, model, rigs, cases, table=None):
         if case["chunk"] is None:
             ctx.count("file:chunk:default")
         # --- oracle: the destination file is the source file, byte for byte; the source is untouched
+        if out[0] == "harness-timeout":
+            ctx.tie_broken("harness:timeout", str(out[1]))
+            continue
         if out[0] != "ok":
             ctx.violation("file:%s:%s" % (case["dir"], "hang" if out[0] == "hang" else "unexpected-exception:" + str(out[1])), case,
                           observed=out, expected="returns", what="%s_file raised/hung on a regular file" % case["dir"])
@@ -833,12 +878,14 @@ def check_files(ctx, model, rigs, cases, table=None):
             igot = dst1[1] if dst1 and dst1[0] == "f" else None
             if out[0] != "ok" or igot != mout:
                 ctx.tie_broken("correspondence:copyfile", "%s %s size %d: impl outcome %r, bytes equal: %r" % (case["dir"], chunk_text(case), len(data), out, igot == mout))
-            elif tr is not None:
+            else:
                 log = tr.log
                 iws = [e[2] for e in log if e[0] == "w" and e[1] == "dst"]
                 irs = [e[3] for e in log if e[0] == "r" and e[1] == "src"]
                 iargs = {e[2] for e in log if e[0] == "r"}
                 bad_side = [e for e in log if (e[0] == "w" and e[1] != "dst") or (e[0] == "r" and e[1] != "src")]
+                if rig.kind == "process":       # only this process's end of the copy is instrumented there
+                    mws, mrs, iws, irs = ((mws if not up else iws), (mrs if up else irs), iws, irs)
                 if iws != mws or irs != mrs or bad_side or (iargs - {chunk}):
                     ctx.tie_broken("correspondence:copyfile", "%s %s size %d: impl writes %r reads %r read-args %r; model writes %r reads %r"
                                    % (case["dir"], chunk_text(case), len(data), iws[:6], irs[:6], sorted(iargs)[:4], mws[:6], mrs[:6]))
@@ -850,17 +897,20 @@ def check_trees(ctx, model, rigs, cases, table=None):
     mcases = []
     for case in cases:
         rig = rigs[case.get("rig", "thread")]
-        src0, dst0, out, src1, dst1, tr = run_tree_impl(rig, case)
-        runs.append((src0, dst0, out, src1, dst1, tr, rig.kind))
+        src0, dst0, out, src1, dst1, tr, again = run_tree_impl(rig, case)
+        runs.append((src0, dst0, out, src1, dst1, tr, rig.kind, again))
         up = case["dir"] == "upload"
         l, rm = (src0, dst0) if up else (dst0, src0)
         mcases.append(["transfer", gen_guard(), 0 if up else 1, eff_chunk(case), 1 if case["ign"] else 0, sx_filter(case["filter"]),
                        sx_of_canon(l), sx_of_canon(rm)])
     res = model.batch(mcases) if model else None
     for i, case in enumerate(cases):
-        src0, dst0, out, src1, dst1, tr, rigkind = runs[i]
+        src0, dst0, out, src1, dst1, tr, rigkind, again = runs[i]
         if out[0] == "skipped":
             ctx.count("skipped-after-hangs")
+            continue
+        if out[0] == "harness-timeout":
+            ctx.tie_broken("harness:timeout", str(out[1]))
             continue
         up = case["dir"] == "upload"
         chunk, flt = eff_chunk(case), case["filter"]
@@ -904,6 +954,26 @@ def check_trees(ctx, model, rigs, cases, table=None):
             if src1 != src0:
                 ctx.violation("tree:%s:source-modified" % fname, case, observed=brief(src1), expected=brief(src0),
                               what=where + ": the source tree changed")
+            if again is not None and again[0][0] != "skipped":
+                # the statement holds for every transfer, also for the second one of the same source in one process
+                ctx.count("tree:again")
+                out2, src2, dst2 = again
+                exp2 = expected_dst(src0, None, flt)
+                if out2[0] == "harness-timeout":
+                    ctx.tie_broken("harness:timeout", str(out2[1]))
+                elif out2[0] != "ok":
+                    ctx.violation("tree:%s:again:%s" % (fname, "hang" if out2[0] == "hang" else "unexpected-exception:" + str(out2[1])), case,
+                                  observed=out2, expected="returns", what=where + ": transferring the same source a second time raised/hung")
+                else:
+                    d2 = first_difference(exp2, dst2)
+                    if d2:
+                        ctx.violation("tree:%s:again:%s" % (fname, d2[0]), case, observed={"at": d2[1], "second destination": brief(dst2)},
+                                      expected={"second destination": brief(exp2)},
+                                      what=where + ": transferring the SAME source a second time (same process and connection, new destination path) "
+                                                   "does not reproduce it at " + (d2[1] or "/"))
+                    if src2 != src0:
+                        ctx.violation("tree:%s:source-modified" % fname, case, observed=brief(src2), expected=brief(src0),
+                                      what=where + ": the source tree changed (second transfer)")
         else:
             ctx.count("tree:outside-domain")
         # --- correspondence
@@ -917,7 +987,7 @@ def check_trees(ctx, model, rigs, cases, table=None):
                 if out[0] != "ok" or ml != il or mr != ir:
                     dd = first_difference(mr if up else ml, dst1)
                     ctx.tie_broken("correspondence:transfer", "%s: impl %r, model ok; first difference %r" % (small(case), out, dd))
-                elif tr is not None:
+                else:
                     iargs = {e[2] for e in tr.log if e[0] == "r"}
                     wrong = [e for e in tr.log if (e[0] == "w" and e[1] != "dst") or (e[0] == "r" and e[1] != "src")]
                     if (iargs - {chunk}) or wrong:
@@ -971,7 +1041,7 @@ def gen_package_case(r, i):
     ents = [e for e in tree[1] if e[0] != "__init__.py"]
     ents.insert(r.randint(0, len(ents)), ["__init__.py", ["f", r.getrandbits(32), gen_size(r, chunk, False), 4]])
     return {"kind": "package", "dir": "upload", "chunk": None if i % 4 == 0 else chunk, "ign": False, "filter": ["none"],
-            "src": ["d", ents], "dst": None, "rig": "process" if i % 2 else "thread"}
+            "src": ["d", ents], "dst": None, "rig": "process" if i % 2 else "thread", "again": i % 3 == 0}
 
 
 def run(ctx):
@@ -983,7 +1053,7 @@ def run(ctx):
                                   "upload_file/download_file with instrumented file objects; tree cases: random trees (depth <= 4, fan-out <= 5, empty dirs and files, "
                                   "fifos/dangling links, unicode/space/dot names, sizes around multiples of the chunk), filters None / functions reject/only/suffix/maxlen / "
                                   "callable objects with a truth value (true or false), chunk_size given or omitted, "
-                                  "35% into an overlapping existing destination, malformed: missing/special top, chunk 0, file-vs-directory conflicts; "
+                                  "35% into an overlapping existing destination, every sixth source transferred twice within the run (second time to a new path), malformed: missing/special top, chunk 0, file-vs-directory conflicts; "
                                   "upload_package of generated packages with an explicit remotepath; "
                                   "two rigs: peer on a thread of this process (every filesystem call's side observed by thread and compared with the model's skeleton) and "
                                   "peer in another process with another working directory and relative paths (a call on the wrong side lands in the wrong tree: ~20% of cases); "
@@ -1011,7 +1081,7 @@ def run(ctx):
             {"kind": "tree", "dir": "upload", "chunk": 5, "ign": False, "filter": ["obj", False, ["only", []]], "dst": None,
              "src": ["d", [["secret.key", ["f", 11, 6, 0]], ["sub", ["d", [["x", ["f", 12, 1, 0]]]]]]]},
         ]
-        fixed = [dict(c, rig=k) for c in base for k in ("thread", "process")]
+        fixed = [dict(c, rig=k, again=True) for c in base for k in ("thread", "process")]
         check_trees(ctx, model, rigs, fixed, table)
         check_trees(ctx, model, rigs, [gen_package_case(r, i) for i in range(n_pkg)], table)
         check_files(ctx, model, rigs, [gen_file_case(r, i) for i in range(n_file)], table)
